@@ -15,7 +15,8 @@ EXPLANATION = (
     "R18.3 every isi_flag_<x> setter calls IsiFlags::set with the constant of the same name (value by const evaluation) on "
     "self.isi_flags and the caller's bool, isi_flags replaces wholesale, every other setter assigns exactly its own field. R18.4 in the "
     "TCP and UDP branches of both connect functions the connection is built with Codec::new(self.mode.clone()), the builder's "
-    "verify_version is forwarded, and exactly one handshake with Builder::isi()'s packet follows Framed::new with no other write. "
+    "verify_version is forwarded, and exactly one handshake with Builder::isi()'s packet follows Framed::new with no other write. The fixed-width "
+    "text writer keeps every encoded byte up to the field width (program name, admin password; shared with C11). "
     "Not decided: behaviour of the OS sockets."
 )
 
